@@ -235,8 +235,14 @@ def _trailer_frames(tier):
     return streams.trailer_frames().map(lambda it: bytes.fromhex(it["b"]))
 
 
+def _tiny_frames():
+    """frames with a payload of 0 or 1 bytes (keep-alive fillers): too short to carry a message, but frames all the same -
+    damaged, they are rejected for their checksum like any other"""
+    return st.binary(min_size=0, max_size=1).map(framing.build_frame)
+
+
 def _frames(tier):
-    return st.one_of(zero_crc_frames(tier), encapsulating_frames(tier), _trailer_frames(tier), gen.payloads(tier).map(framing.build_frame), gen.payloads(tier).map(framing.build_frame), nested_prefix_frames(tier))
+    return st.one_of(_tiny_frames(), zero_crc_frames(tier), encapsulating_frames(tier), _trailer_frames(tier), gen.payloads(tier).map(framing.build_frame), gen.payloads(tier).map(framing.build_frame), nested_prefix_frames(tier))
 
 
 @st.composite
